@@ -45,7 +45,7 @@ func withJoiners(cfg Cfg, n int) Cfg {
 // closes in 3.5-5.5 s; plus 9.6 M states in 5.3 min at load average 60 for the batch-proposal
 // boxes B13, B13b, B13c, B13d (2.06 + 1.73 + 0.64 + 5.13 M states; 78 + 56 + 18 + 163 s); quick B13
 // is 0.035 M states and closes in 1.5-3 s. Every box stops at its share of the internal time
-// budget (100 s quick, 39 min thorough) and reports the bound it completed.
+// budget (130 s quick, 39 min thorough) and reports the bound it completed.
 func makeBoxes(tier string) []*Box {
 	thorough := tier == "thorough"
 	pick := func(q, t int) int {
@@ -386,7 +386,7 @@ func makeBoxes(tier string) []*Box {
 	add(&Box{ID: "B1", Mode: "B", What: "network partitions with one entry per MsgApp (MaxSizePerMsg=0): leaders cut off right after election or after appending, stale leaders, entries of earlier terms acknowledged separately from the leader's own (Figure-8 family)",
 		Cfg: cfgOnePerMsg(3, false), Bud: Budget{MaxTerm: 4, Proposals: 1, Drops: pick(0, 9)},
 		Depth: 400, MaxDev: pick(1, 2), Kinds: kinds(evCampaign, evPropose, evIsolate), Devs: kinds(evIsolate, evDrop), LeaderPropose: true,
-		Share: pick(25, 180)})
+		Share: pick(45, 180)})
 	if tj := os.Getenv("RAFTMC_TRIAL"); tj != "" {
 		// development aid: a box given as JSON, e.g.
 		// {"mode":"B","cfg":"plain","members":3,"joiner":false,"budgets":{...},"max_deviations":1,"kinds":"CPHKRS"}
